@@ -3,7 +3,7 @@
 (plus extra checks listed in EXTRA), undoes it, and writes seeded/RESULTS.md.  Usage: tools/run_all_seeds.py [name-prefix ...]"""
 import json, os, subprocess, sys
 VERIF = os.path.dirname(os.path.dirname(os.path.abspath(__file__)))
-EXTRA = {"C03": ["C07"], "C07": ["C03", "C04", "C05"], "C09": ["C10", "C12"], "C08": ["C06"], "C10": ["C12", "C04"], "C11": ["C14"], "C17": ["C13", "C05"]}
+EXTRA = {"C03": ["C07"], "C07": ["C03", "C04", "C05"], "C09": ["C10", "C12"], "C08": ["C06"], "C10": ["C12", "C04"], "C11": ["C14"], "C14": ["C11"], "C17": ["C13", "C05"]}
 claimed = {c["property_id"] for c in json.load(open(os.path.join(VERIF, "MANIFEST.json")))["checks"]}
 rows = []
 out_name = "RESULTS.md"
